@@ -164,3 +164,34 @@ def sample(rng: random.Random, items, n):
     if len(items) <= n:
         return items
     return rng.sample(items, n)
+
+
+_GRAM_CACHE: dict = {}
+
+
+def grammar_programs(which="reference", per_alt=4, seed=0, repo=None):
+    """texts derived from CPython's own grammar (which='reference', /verif/ref/python311.gram) or from the working tree's
+    tasks/xonsh.gram (which='xonsh'): several derivations per alternative of every rule (see symx/gramseeds.py)"""
+    import sys as _sys
+    repo = repo or REPO
+    key = (which, per_alt, seed)
+    if key in _GRAM_CACHE:
+        return _GRAM_CACHE[key]
+    from . import gramseeds
+    old = _sys.getrecursionlimit()
+    _sys.setrecursionlimit(max(old, 10000))
+    try:
+        path = os.path.join(os.path.dirname(os.path.dirname(os.path.abspath(__file__))), "ref", "python311.gram") if which == "reference" else f"{repo}/tasks/xonsh.gram"
+        out = []
+        seen = set()
+        for k in range(per_alt):
+            for _, _, text in gramseeds.programs(path, start="file", per_alt=1, seed=seed * 1000 + k, repo=repo, budget=4 + 5 * k):
+                if text not in seen:
+                    seen.add(text)
+                    out.append(text)
+    except Exception:  # noqa: BLE001  (a grammar the generator cannot read proposes nothing)
+        out = []
+    finally:
+        _sys.setrecursionlimit(old)
+    _GRAM_CACHE[key] = out
+    return out
